@@ -20,7 +20,16 @@ def main(c):
             vlib.run_shards(c2, exe, [['dispatch', c.seed, scale]], env={'CARQUET_VERIF_CPU_CAP': cap}, cpu_limit=3000)
             c.count('dispatch_caps_run')
         vlib.run_shards(c2, exe, [['dispatch', c.seed + 1000, scale]], cpu_limit=3000)
+        if variant == 'plain':
+            # every dispatched entry point once as the very first dispatched call of a fresh process
+            vlib.run_shards(c2, exe, [['dispatch-first', c.seed, scale, k] for k in range(19)], cpu_limit=600)
         c.count('builds_run')
+    if 'avx512_vbmi' in open('/proc/cpuinfo').read():
+        # code paths that exist only when the library is compiled for AVX512-VBMI (#ifdef __AVX512VBMI__)
+        exe = vlib.build_driver('c15', 'plainvbmi')
+        vlib.run_shards(c, exe, [['direct-avx512', c.seed, scale]], cpu_limit=3000)
+        vlib.run_shards(c, exe, [['dispatch', c.seed + 2000, scale]], cpu_limit=3000)
+        c.count('vbmi_build_runs')
     c.rule = ('for each kernel x {SSE4.2, AVX2, AVX-512 direct; dispatcher under CARQUET_VERIF_CPU_CAP in scalar/sse42/avx2/avx512f/avx512/native}: every count 0..130 (320 thorough) '
               'x placements {array end flush against a PROT_NONE page, start flush against a PROT_NONE page, mid-page at misalignments} x value laws, result compared with the scalar '
               'definition restated in the driver; canary windows around every output detect writes outside [0,count). distinct = hash(input, kernel, placement)')
